@@ -630,6 +630,36 @@ Proof.
   - intros q qc Hq. destruct (Hold q qc Hq) as [[-> ->]|[Hne Hq']]; [exact (Isnapnd p _ Hp)|eauto].
 Qed.
 
+(* a waiting registration is given up: only its own program counter changes *)
+Lemma step_inv_pabandon s p s' : Inv s -> step s (APAbandon p) = Some s' -> Inv s'.
+Proof.
+  intros I H. open_step H.
+  match goal with E : alookup p _ = Some PWaitW |- _ => rename E into Hp end.
+  assert (Hold : forall q qc, alookup q (aset p PFailed (plugs s)) = Some qc ->
+                 (q = p /\ qc = PFailed) \/ (q <> p /\ alookup q (plugs s) = Some qc)).
+  { intros q qc. apply alookup_aset_inv. }
+  dI I. constructor; fields; try assumption.
+  - intros W q qc Hq. destruct (Hold q qc Hq) as [[-> ->]|[Hne Hq']]; [reflexivity|eauto].
+  - intros a b ac bc Ha Hb Hha Hhb.
+    destruct (Hold a ac Ha) as [[-> ->]|[Hna Ha']]; [discriminate|].
+    destruct (Hold b bc Hb) as [[-> ->]|[Hnb Hb']]; [discriminate|]. eauto.
+  - intros q ids' [Hq|Hq]; destruct (Hold _ _ Hq) as [[-> E]|[Hne Hq']]; try discriminate; eauto.
+  - intros q. rewrite Iactive. split; intros [qc [Hq Ha]].
+    + exists qc. split; [|exact Ha]. rewrite alookup_aset_other; [exact Hq|]. intros ->. rewrite Hp in Hq. inversion Hq; subst. discriminate.
+    + destruct (Hold q qc Hq) as [[-> ->]|[Hne Hq']]; [discriminate|eauto].
+  - intros q qc c Hq Hc. destruct (Hold q qc Hq) as [[-> ->]|[Hne Hq']]; [contradiction|eauto].
+  - intros q qc c Hin Hq. destruct (Hold q qc Hq) as [[-> ->]|[Hne Hq']]; [|eauto].
+    apply Iactive in Hin. destruct Hin as [pc [Hp' Ha]]. rewrite Hp in Hp'. inversion Hp'; subst. discriminate.
+  - intros q c Hr. destruct (Irecv q c Hr) as [[pc [Hq He]] Hu]. split; [|exact Hu]. exists pc. split; [|exact He].
+    rewrite alookup_aset_other; [exact Hq|]. intros ->. rewrite Hp in Hq. inversion Hq; subst. discriminate.
+  - intros W. destruct (Iwrh W) as (q & qc & Hq & Hh). exists q, qc. split; [|exact Hh].
+    rewrite alookup_aset_other; [exact Hq|]. intros ->. rewrite Hp in Hq. inversion Hq; subst. discriminate.
+  - rewrite aset_keys_present by congruence. assumption.
+  - intros z Hz. destruct (Izomb z Hz) as [ids Hq]. exists ids.
+    rewrite alookup_aset_other; [exact Hq|]. intros ->. congruence.
+  - intros q qc Hq. destruct (Hold q qc Hq) as [[-> ->]|[Hne Hq']]; [constructor|eauto].
+Qed.
+
 (* a repeated Unblock of a released block changes nothing *)
 Lemma step_inv_greleaseagain s g s' : Inv s -> step s (AGReleaseAgain g) = Some s' -> Inv s'.
 Proof. intros I H. open_step H. exact I. Qed.
@@ -644,6 +674,7 @@ Proof.
   - apply step_inv_pactivate.
   - apply step_inv_prelease.
   - apply step_inv_pclose.
+  - apply step_inv_pabandon.
   - apply step_inv_gacquire.
   - apply step_inv_gbegin.
   - apply step_inv_gdeliver.
@@ -997,13 +1028,13 @@ Qed.
 
 Theorem failed_never_served s p : reachable s -> alookup p (plugs s) = Some PFailed ->
   ~ in_exclusive s p /\ ~ In p (active s) /\ (forall c, ~ In (p, c) (recv s)) /\
-  (forall a, a <> APArrive p -> In a [APAcquire p; APSnapshot p; APFail p; APActivate p; APRelease p; APClose p] -> step s a = None).
+  (forall a, a <> APArrive p -> In a [APAcquire p; APSnapshot p; APFail p; APActivate p; APRelease p; APClose p; APAbandon p] -> step s a = None).
 Proof.
   intros R Hp. pose proof (reachable_inv s R) as I. split; [|split; [|split]].
   - intros (pc & Hp' & Hh). rewrite Hp in Hp'. inversion Hp'; subst. discriminate.
   - intros Hi. apply (i_active s I) in Hi. destruct Hi as [pc [Hp' Ha]]. rewrite Hp in Hp'. inversion Hp'; subst. discriminate.
   - intros c Hr. destruct (i_recv s I p c Hr) as [[pc [Hp' He]] _]. rewrite Hp in Hp'. inversion Hp'; subst. discriminate.
-  - intros a _ Ha. cbn [In] in Ha. destruct Ha as [<-|[<-|[<-|[<-|[<-|[<-|[]]]]]]]; unfold step; rewrite Hp; reflexivity.
+  - intros a _ Ha. cbn [In] in Ha. destruct Ha as [<-|[<-|[<-|[<-|[<-|[<-|[<-|[]]]]]]]]; unfold step; rewrite Hp; reflexivity.
 Qed.
 
 (* the holder of the exclusive section never has to wait for anybody: its success path is enabled
@@ -1117,36 +1148,36 @@ Qed.
    is the number of steps the others take meanwhile.  Whatever they do and however long it takes, the waiting
    plugin is still waiting, and as soon as no block is held (and nobody else is in the section) its
    registration runs to completion with the store of THAT moment as its snapshot. *)
-Lemma step_keeps_waiting s a s' p : step s a = Some s' -> a <> APAcquire p ->
+Lemma step_keeps_waiting s a s' p : step s a = Some s' -> a <> APAcquire p -> a <> APAbandon p ->
   alookup p (plugs s) = Some PWaitW -> alookup p (plugs s') = Some PWaitW.
 Proof.
-  intros H Ha Hp.
-  destruct a as [q|q|q|q|q|q|q|g|g c|g q|g|g|g|g];
+  intros H Ha Hb Hp.
+  destruct a as [q|q|q|q|q|q|q|q|g|g c|g q|g|g|g|g];
     try (destruct (String.eqb_spec q p) as [->|Hne];
-         [ try (exfalso; apply Ha; reflexivity); unfold step in H; rewrite Hp in H; try discriminate
+         [ try (exfalso; apply Ha; reflexivity); try (exfalso; apply Hb; reflexivity); unfold step in H; rewrite Hp in H; try discriminate
          | open_step H; fields; try (rewrite alookup_aset_other by congruence); exact Hp ]);
     try (open_step H; fields; exact Hp).
 Qed.
 
-Lemma steps_keep_waiting l : forall s s' p, steps s l = Some s' -> ~ In (APAcquire p) l ->
+Lemma steps_keep_waiting l : forall s s' p, steps s l = Some s' -> ~ In (APAcquire p) l -> ~ In (APAbandon p) l ->
   alookup p (plugs s) = Some PWaitW -> alookup p (plugs s') = Some PWaitW.
 Proof.
-  induction l as [|a r IH]; cbn [steps]; intros s s' p H Hn Hp.
+  induction l as [|a r IH]; cbn [steps]; intros s s' p H Hn Hm Hp.
   - inversion H; subst. exact Hp.
   - destruct (step s a) as [s1|] eqn:E; [|discriminate].
-    apply (IH s1 s' p H); [intros Hi; apply Hn; right; exact Hi|].
-    apply (step_keeps_waiting s a s1 p E); [intros ->; apply Hn; left; reflexivity|exact Hp].
+    apply (IH s1 s' p H); [intros Hi; apply Hn; right; exact Hi|intros Hi; apply Hm; right; exact Hi|].
+    apply (step_keeps_waiting s a s1 p E); [intros ->; apply Hn; left; reflexivity|intros ->; apply Hm; left; reflexivity|exact Hp].
 Qed.
 
 Theorem pending_registration_ageless s l s' p : reachable s -> alookup p (plugs s) = Some PWaitW ->
-  steps s l = Some s' -> ~ In (APAcquire p) l ->
+  steps s l = Some s' -> ~ In (APAcquire p) l -> ~ In (APAbandon p) l ->
   alookup p (plugs s') = Some PWaitW /\
   (readers s' = 0 -> writer s' = false ->
      exists s'', steps s' [APAcquire p; APSnapshot p; APActivate p; APRelease p] = Some s'' /\
                  In p (active s'') /\ alookup p (plugs s'') = Some (PDone (store s')) /\
                  writer s'' = false /\ store s'' = store s').
 Proof.
-  intros R Hp H Hn. pose proof (steps_keep_waiting l s s' p H Hn Hp) as Hp'. split; [exact Hp'|].
+  intros R Hp H Hn Hm. pose proof (steps_keep_waiting l s s' p H Hn Hm Hp) as Hp'. split; [exact Hp'|].
   intros Hr W. apply registration_completes; try assumption. eapply reachable_steps; eauto.
 Qed.
 
@@ -1169,7 +1200,7 @@ Qed.
 Lemma sent_snapshot_stable s a s' p : step s a = Some s' -> sent_snapshot s p -> sent_snapshot s' p.
 Proof.
   intros H (pc & Hp & Hs).
-  destruct a as [q|q|q|q|q|q|q|g|g c|g q|g|g|g|g];
+  destruct a as [q|q|q|q|q|q|q|q|g|g c|g q|g|g|g|g];
     try (destruct (String.eqb_spec q p) as [->|Hne];
          [ unfold step in H; rewrite Hp in H; destruct pc; try discriminate;
            repeat match type of H with context [match ?x with _ => _ end] => destruct x; try discriminate end;
@@ -1201,4 +1232,48 @@ Theorem snapshot_without_duplicates s p : reachable s -> NoDup (snapshot_of s p)
 Proof.
   intros R. pose proof (reachable_inv s R) as I. split; [|apply (i_stnodup s I)].
   unfold snapshot_of. destruct (alookup p (plugs s)) as [pc|] eqn:Hp; [apply (i_snapnd s I p pc Hp)|constructor].
+Qed.
+
+(* ---------------- an abandoned waiter ---------------- *)
+(* giving up a registration that is still waiting for the exclusive section is the identity on everything but
+   the waiter's own program counter — the lock is as if it had never asked — and whatever could happen before
+   can happen after: blocks are granted, and once the last block is released every other waiting registration
+   runs to completion *)
+Theorem abandoned_waiter_leaves_no_trace s p s' : reachable s -> step s (APAbandon p) = Some s' ->
+  reachable s' /\ alookup p (plugs s) = Some PWaitW /\ alookup p (plugs s') = Some PFailed /\
+  readers s' = readers s /\ writer s' = writer s /\ mutex s' = mutex s /\ gors s' = gors s /\
+  store s' = store s /\ active s' = active s /\ recv s' = recv s /\
+  (forall q, q <> p -> alookup q (plugs s') = alookup q (plugs s)) /\
+  (forall g s1, step s (AGAcquire g) = Some s1 -> exists s1', step s' (AGAcquire g) = Some s1') /\
+  (readers s' = 0 -> writer s' = false -> forall q, alookup q (plugs s') = Some PWaitW ->
+     exists s'', steps s' [APAcquire q; APSnapshot q; APActivate q; APRelease q] = Some s'' /\ In q (active s'')).
+Proof.
+  intros R H. assert (R' : reachable s') by (eapply reachable_step; eauto).
+  split; [exact R'|]. unfold step in H. destruct (alookup p (plugs s)) as [pc|] eqn:Hp; [|discriminate].
+  destruct pc; try discriminate. inversion H; subst. fields.
+  split; [reflexivity|]. split; [apply alookup_aset_same|]. repeat (split; [reflexivity|]).
+  split; [intros q Hne; apply alookup_aset_other; exact Hne|]. split.
+  - intros g s1 E. unfold step in E |- *. fields.
+    destruct (alookup g (gors s)); [discriminate|]. destruct (writer s); [discriminate|]. eexists. reflexivity.
+  - intros Hr W q Hq. destruct (registration_completes _ q R' Hr W Hq) as (s'' & H1 & H2 & _). exists s''. auto.
+Qed.
+
+Lemma aset_aset_same {V} k (v v' : V) l : aset k v (aset k v' l) = aset k v l.
+Proof.
+  induction l as [|[k' w] r IH]; cbn [aset].
+  - rewrite String.eqb_refl. reflexivity.
+  - destruct (String.eqb_spec k k') as [->|Hne]; cbn [aset].
+    + rewrite String.eqb_refl. reflexivity.
+    + destruct (String.eqb_spec k k'); [contradiction|]. f_equal. exact IH.
+Qed.
+
+(* the code's own way — keep waiting, take the section, fail at once, give it up — ends in the same lock state *)
+Theorem abandon_equals_acquire_then_fail s p : reachable s -> alookup p (plugs s) = Some PWaitW ->
+  readers s = 0 -> writer s = false ->
+  exists s1 s2, steps s [APAcquire p; APFail p] = Some s1 /\ step s (APAbandon p) = Some s2 /\ s1 = s2.
+Proof.
+  intros R Hp Hr W. eexists. eexists. cbn [steps]. unfold step at 1. rewrite Hp, Hr, W. cbn [Nat.eqb negb andb].
+  unfold step at 1. fields. rewrite alookup_aset_same. unfold step. rewrite Hp.
+  split; [reflexivity|]. split; [reflexivity|]. unfold set_writer, set_plug. fields.
+  rewrite aset_aset_same. destruct s; cbn in *. subst. reflexivity.
 Qed.
